@@ -77,7 +77,7 @@ pub async fn run(sink: &mut Sink, mrg: &mut Stream, act: &mut Stream) {
                         copy_dir(std::path::Path::new(&base.uri), &to);
                         let uri = to.to_str().unwrap().to_string();
                         let ds = lance::Dataset::open(&uri).await.unwrap();
-                        let mut t = Tbl { dir: d, uri, ds, tys: tys.clone(), stable: base.stable, index_on0: indexed };
+                        let mut t = Tbl { dir: d, uri, ds, tys: tys.clone(), stable: base.stable, index_on0: indexed, moved_after_index: false };
                         let before = t.layout().await.unwrap();
                         let mut hist = vec![format!("micro table, indexed={}, partial source schema={}", indexed, partial)];
                         let out = merge_case(sink, mrg, &mut t, 1000 + case_no, &mut hist, &before, &st, &src, 1, true, &cf, "micro").await;
